@@ -88,7 +88,8 @@ def gen_cases(tier, seed):
     def add(kind, name, n, variant="plain", threads=2, weight=1.0, **kw):
         idx[0] += 1
         c = {"id": "%s-%03d%s" % (name, len(cases), "" if variant == "plain" else "-" + variant), "kind": kind,
-             "n": n, "seed": seed, "idx": idx[0], "_threads": threads, "_weight": weight, "_timeout": 900}
+             "n": n, "seed": seed, "idx": idx[0], "_threads": threads, "_weight": weight,
+             "_timeout": 120 if variant == "plain" else 300}
         if variant != "plain":
             c["_variant"] = variant
         c.update(kw)
@@ -109,10 +110,10 @@ def gen_cases(tier, seed):
     for i in range(nr):
         add("runffts", "runffts", per_r, threads=5 if i % 2 else 2, weight=per_r)
     add("runffts", "runffts", 12 if q else 36, variant="asan", weight=24)
-    npb, per_p = (2, 10) if q else (8, 30)
+    npb, per_p = (2, 24) if q else (8, 48)
     for i in range(npb):
         add("pbc", "pbc", per_p, threads=5 if i % 2 else 2, weight=per_p + 20)
-    add("pbc", "pbc", 6 if q else 12, variant="asan", weight=40)
+    add("pbc", "pbc", 12 if q else 24, variant="asan", weight=40)
     return cases
 
 
